@@ -627,7 +627,7 @@ def truth_table(body, atoms, rewrite=None):
     if bf is None:
         return None
     if rewrite is not None:
-        bf = [([(rewrite(d), pol) for (d, pol) in conds], ret) for conds, ret in bf]
+        bf = [([(rewrite(d), pol) for (d, pol) in conds], (rewrite(strip_refs(ret)) if ret is not None else None)) for conds, ret in bf]
 
     def atom_index(e):
         e = strip_refs(e)
